@@ -103,6 +103,21 @@ def scratch(patch, props, tier):
                     rec['what'] = (v.get('what') or '')[:300]
                 except Exception as e:  # noqa: BLE001
                     rec['what'] = 'unreadable replay: %s' % e
+            # the replay of the first concrete violation: must fail on the changed tree and pass on the unchanged one
+            conc = [l for l in viol if 'no-failing-input-found' not in l]
+            if conc:
+                rp = os.path.join(S, 'verif', conc[0].split('replay=')[1].split()[0])
+                r1 = sh('%s %s/verif/harness/vcheck.py %s --replay %s' % (PY, S, p, rp), cwd=S + '/verif', env=env, timeout=1200)
+                r0 = sh('%s %s/harness/vcheck.py %s --replay %s' % (PY, VERIF, p, rp), cwd=VERIF,
+                        env=dict(os.environ, PYTHONDONTWRITEBYTECODE='1'), timeout=1200)
+                rec['replay_rc'] = [r1.returncode, r0.returncode]
+                if '--save-corpus' in sys.argv and rec['replay_rc'] == [1, 0]:
+                    d = json.load(open(rp))
+                    sid = os.path.basename(os.path.dirname(patch))
+                    os.makedirs(os.path.join(VERIF, 'corpus', p), exist_ok=True)
+                    json.dump({'regress': 'seeded change %s' % sid, 'what': d.get('what'), 'replay': d['replay']},
+                              open(os.path.join(VERIF, 'corpus', p, 'regress-%s.json' % sid), 'w'), indent=1)
+                    rec['saved'] = 'corpus/%s/regress-%s.json' % (p, sid)
             print(json.dumps(rec), flush=True)
     finally:
         sh('git -C %s worktree remove --force %s/repo' % (REPO, S))
